@@ -21,6 +21,11 @@ class Injected(OSError):
     """the failure the harness makes an operation raise"""
 
 
+class Interrupted(KeyboardInterrupt):
+    """the interruption the harness delivers at an operation (modes "interrupt" / "partial-interrupt"):
+    a call that is interrupted is a call that raises"""
+
+
 # raw call label -> model operation
 GROUP = {"isfile": "isfile", "xmlparse": "xmlparse", "encode": "encode", "create": "create", "write": "write",
          "wclean": "wclean", "read": "read", "readlines": "read", "remove": "remove", "decode": "decode",
@@ -72,7 +77,7 @@ class Ctl:
     def check(self, label, path):
         mode = self.gate(label, path)
         if mode is not None:
-            raise Injected("injected failure at %s(%s)" % (label, path))
+            raise (Interrupted if "interrupt" in mode else Injected)("injected failure at %s(%s)" % (label, path))
 
 
 class FileProxy:
@@ -81,12 +86,12 @@ class FileProxy:
 
     def write(self, data):
         mode = self._ctl.gate("write", self._path)
-        if mode == "partial":
+        if mode is not None and mode.startswith("partial"):
             self._f.write(data[: len(data) // 2])
             self._f.flush()
-            raise Injected("injected failure in the middle of write(%s)" % self._path)
+            raise (Interrupted if "interrupt" in mode else Injected)("injected failure in the middle of write(%s)" % self._path)
         if mode is not None:
-            raise Injected("injected failure at write(%s)" % self._path)
+            raise (Interrupted if "interrupt" in mode else Injected)("injected failure at write(%s)" % self._path)
         return self._f.write(data)
 
     def writelines(self, lines):
@@ -289,7 +294,7 @@ def outcome_of(fn, ctl, tid=0):
     """run fn(); canonical outcome: {'ok': {'body': c, 'header': h}} or {'err': kind}"""
     try:
         res = ctl.run(fn)
-    except Injected:
+    except (Injected, Interrupted):
         return {"err": "fault"}, None
     except real_ET.XMLSyntaxError:
         return {"err": "syntax"}, None
